@@ -118,6 +118,8 @@ class Kernel:
         self.quantum = sched_cfg.get("q", 20)
         self._rr_left = self.quantum
         self.change_points = set()
+        self.focus_left = 8     # focus() calls honoured per run (more would turn PCT into uniform random switching)
+        self.pre_steps = 0      # yield points at which the policy may pre-empt (in "sync" mode: synchronisation calls only)
         if self.policy == "pct":
             horizon = sched_cfg.get("horizon", 2000)
             for _ in range(sched_cfg.get("d", 2)):
@@ -132,6 +134,17 @@ class Kernel:
         self.stalls_left = (self.stall_cfg or {}).get("max", 0)
         self.stalled_total = 0.0
         self.stall_spans: list = []
+        # fault "descheduled at a synchronisation call": the thread that makes the n-th synchronisation call of the run
+        # (Event.set/clear/wait, lock acquire, queue and socket operations) is frozen for a short while just before it -
+        # long enough for a message of the peer or a timer to arrive inside a check-then-act window
+        self.sync_stall_cfg = sched_cfg.get("sync_stall")
+        self.sync_ops = 0
+        self.sync_stall_at: dict = {}
+        if self.sync_stall_cfg:
+            c = self.sync_stall_cfg
+            for _ in range(c.get("n", 1)):
+                self.sync_stall_at[self.rng.randrange(1, c.get("horizon", 500) + 1)] = self.rng.choice(
+                    c.get("durs", [0.002, 0.03]))
         self.tid_counter = 0
         self.spawned = 0
         self.thread_errors: list = []
@@ -393,7 +406,7 @@ class Kernel:
             return later[0] if later else cands[0]
         return cands[self.rng.randrange(len(cands))]
 
-    def yield_point(self, site=None):
+    def yield_point(self, site=None, sync=None):
         """A pre-emption point of the current thread."""
         cur = self.current
         if cur.is_root:
@@ -418,6 +431,16 @@ class Kernel:
             self.log("stall", cur.role, cur.stall_dur)
             self.block(("stall", cur.tid), cur.stall_dur)
             return
+        if self.sync_stall_at and (site is None if sync is None else sync):
+            self.sync_ops += 1
+            dur = self.sync_stall_at.pop(self.sync_ops, None)
+            if dur is not None:
+                self.stalled_total += dur
+                self.stall_spans.append((self.now, self.now + dur))
+                self.fault("sync_stall")
+                self.log("sync-stall", cur.role, dur)
+                self.block(("stall", cur.tid), dur)
+                return
         root = self.root
         if root.step_wake is not None and self.steps >= root.step_wake and root.state == BLOCKED:
             root.step_wake = None
@@ -457,7 +480,8 @@ class Kernel:
                 self._switch_to(cands[self.rng.randrange(len(cands))])
             return
         if pol == "pct":
-            if self.steps in self.change_points:
+            self.pre_steps += 1
+            if self.pre_steps in self.change_points:
                 self._low_prio -= 1.0
                 cur.prio = self._low_prio
                 self.probe("pct_change_point")
@@ -507,6 +531,19 @@ class Kernel:
         val = self.block(("steps", 0), max_dt)
         root.step_wake = None
         return val
+
+    def focus(self, n=1):
+        """Root only: the harness is about to create concurrent activity (it just injected stimuli for several threads).
+        Under PCT, draw `n` additional priority change points within the next few steps, so that the threads that react
+        are pre-empted inside their reaction and not somewhere in the long idle stretches of the run.  The window is
+        drawn from the schedule seed; other policies are unaffected."""
+        if self.policy != "pct" or self.focus_left <= 0:
+            return
+        self.focus_left -= 1
+        h = self.rng.choice((5, 15, 50, 150) if self.preempt == "sync" else (20, 60, 200, 600, 2000))
+        for _ in range(n):
+            self.change_points.add(self.pre_steps + self.rng.randrange(1, h))
+        self.probe("pct_focus")
 
     def advance(self, dt):
         self.sleep(dt)
